@@ -100,6 +100,22 @@ def r2_media_type(chk: Check) -> None:
         parsed = {name_of(b, "v") for _n, b in pfind("$v = media_types.parse($_)", helper.node)}
         eqs = [b for _n, b in pfind("$a == $b", helper.node) if {name_of(b, "a"), name_of(b, "b")} <= parsed and name_of(b, "a") != name_of(b, "b")]
         chk.expect(len(parsed) >= 2 and bool(eqs), "C04.R2", helper, "media types compared after parsing (parameters ignored)", "comparison shape not recognised", helper.loc())
+        # overlapping ranges (`*/*` and `application/*` both match application/json): the choice must not depend on the
+        # order in which the document lists them - a fallback that is only taken while it is still None is first-match-wins
+        gh = cfg_of(helper)
+        for lp in (x for x in walk_body(helper.node) if isinstance(x, ast.For)):
+            for st_ in (x for x in ast.walk(lp) if isinstance(x, ast.Assign) and len(x.targets) == 1 and isinstance(x.targets[0], ast.Name)):
+                v_ = st_.targets[0].id
+                if not any(isinstance(r_, ast.Return) and isinstance(r_.value, ast.Name) and r_.value.id == v_ for r_ in walk_body(helper.node)):
+                    continue
+                facts = known_conditions(gh, gh.nodes_of(st_))
+                construct = "among overlapping media type ranges the most specific one wins"
+                if facts.get(f"{v_} is None") is True:
+                    chk.violation("C04.R2", helper, construct,
+                                  f"`{v_}` is only assigned while it is still None: with `content: {{\"*/*\": A, \"application/*\": B}}` an `application/json` response is validated against A because it is listed first - a conforming body is reported and a violating one passes",
+                                  helper.loc(st_))
+                elif any((">" in k or "<" in k) and val for k, val in facts.items()):
+                    chk.ok("C04.R2", helper, construct, "chosen by a specificity comparison", helper.loc(st_))
 
 
 def _failure_list(fn: FuncInfo) -> str | None:
